@@ -25,7 +25,8 @@ MANIFEST = dict(
           "precession_newcomb and precession_ecliptical, for every pair of epochs and every direction: the result never "
           "raises and its direction vector is Rz(z) Ry(theta) Rz(zeta) applied to the starting direction (start declination "
           "<= 85 degrees, the asin branch; for > 85 degrees, the acos branch, the same holds whenever the rotated "
-          "vector has a non-negative z component, and the declination returned is its absolute value otherwise); the "
+          "vector has a non-negative z component - proved to be the case for 85 < dec <= 90 and both epochs within +-5 "
+          "centuries of J2000 - and the declination returned is its absolute value otherwise); the "
           "matrix is orthogonal, so the angle between two stars is unchanged; a zero interval is the identity; the "
           "polynomials of the source satisfy zeta(T+t,-t) = -z(T,t), z(T+t,-t) = -zeta(T,t), theta(T+t,-t) = -theta(T,t) "
           "identically, so precessing there and back is exactly the identity on directions; proper motion enters as a "
